@@ -25,4 +25,6 @@ def jobs(tier, ws):
                           defines=['-DH_vlen', '-DNDIMS=%d' % nd, '-DVLEN_MAX=%dLL' % lim, '-DSHAPE_MAX=%dLL' % smax, '-DNVARS=1'],
                           canaries=['fits'] + (['too_big'] if nd >= 1 and smax * (smax if nd > 1 else 1) * 8 > lim else []), unwind=5, kind='bounded',
                           bound='ndims=%d, dimension lengths <= %d, limit of CDF-%d' % (nd, smax, fmt), timeout=600))
+    import C03
+    js += C03.begins_jobs(tier, 'C18', [(3, 512, 4)] if tier == 'quick' else [(3, 512, 4), (4, 512, 512)])
     return js
